@@ -40,6 +40,7 @@ type Case struct {
 	TCP *TCPCase   `json:"tcp,omitempty"`
 	UDP *UDPCase   `json:"udp,omitempty"`
 	VC  *VConnCase `json:"vconn,omitempty"`
+	BP  *BPCase    `json:"backpressure,omitempty"`
 }
 
 // failure is what an oracle returns; timing says that the verdict rests on a bounded
@@ -252,6 +253,9 @@ func run(c Case) (*failure, string, bool, string) {
 	if c.VC != nil {
 		return runVConn(c.VC)
 	}
+	if c.BP != nil {
+		return runBP(c.BP)
+	}
 	return runUDP(c.UDP)
 }
 
@@ -342,7 +346,7 @@ func TestReplay(t *testing.T) {
 	if _, err := vkit.LoadReplay(path, &c); err != nil {
 		t.Fatalf("bad replay file: %v", err)
 	}
-	if c.TCP == nil && c.UDP == nil && c.VC == nil {
+	if c.TCP == nil && c.UDP == nil && c.VC == nil && c.BP == nil {
 		t.Fatalf("replay file holds neither a tcp nor a udp case")
 	}
 	check(t, c)
